@@ -57,7 +57,7 @@ def build_harness(libdir, variant="plain"):
         if os.path.exists(exe):
             return exe, True, "cached"
         flags = {"plain": ["-O1", "-g"],
-                 "asan": ["-O1", "-g", "-fsanitize=address,undefined", "-fno-sanitize-recover=undefined", "-fno-omit-frame-pointer"],
+                 "asan": ["-O1", "-g", "-fsanitize=address,bounds", "-fno-sanitize-recover=bounds", "-fno-omit-frame-pointer"],
                  "tsan": ["-O1", "-g", "-fsanitize=thread"]}[variant]
         srcs = sorted(glob.glob(os.path.join(HARN, "*.cpp")))
         objs = []
@@ -198,7 +198,8 @@ def run_stream(exe, stream, seed, tier, tag, timeout=3000, env=None):
             os.unlink(pre + ext)
     t0 = time.time()
     e = dict(os.environ)
-    e["ASAN_OPTIONS"] = "detect_leaks=1:abort_on_error=0:exitcode=99"
+    # LeakSanitizer only for the object-lifetime streams (the other streams keep modules cached on purpose)
+    e["ASAN_OPTIONS"] = ("detect_leaks=1" if stream.startswith("mem_") else "detect_leaks=0") + ":abort_on_error=0:exitcode=99"
     e["UBSAN_OPTIONS"] = "halt_on_error=1:exitcode=98:print_stacktrace=1"
     e["TSAN_OPTIONS"] = "exitcode=97:halt_on_error=0"
     if env:
